@@ -2,7 +2,7 @@
 """C12 -- a format fragment on disk is always entirely old or entirely new.
 
 proof:   Properties_C12.v (crash_atomic, crash_prefix_shape, reader_sees_one_version,
-         flush_success, fault_atomic_{fixed,refuted,partial,for_code}) over the
+         flush_success, fault_atomic (full, for the current source), fault_atomic_{fixed,refuted,partial}) over the
          protocol model C12/FlushProto.v on the abstract filesystem C12/Fs.v
 tie:     translate/tr_flushproto.py regenerates Gen/FlushShape.v from src/flush.c;
          harness/C12/shim.c (ptrace supervisor) logs every system call of the real
@@ -591,8 +591,8 @@ def main():
         if key in seen_keys:
             continue
         seen_keys.add(key)
-        found_any = True
-        chk.violation(key, desc, rep)
+        if chk.violation(key, desc, rep):
+            found_any = True
     if known_seen:
         sc, k, en, tms, rep = known_seen[0]
         rep["occurrences"] = len(known_seen)
